@@ -15,4 +15,10 @@ PROP_META = {
                   "concurrent use is only exercised (duplicate-free plans, no crash), not proved: the model is sequential"],
   "trusted": ["Model/LB.v hand-written from proxycore/lb.go; tie = differential run of OnEvent/NewQueryPlan/Next"],
  },
+ "C11": {
+  "rule": "bodies produced by the reference codec (go-cassandra-native-protocol) for generated QUERY/EXECUTE/BATCH messages over all option flags in v3,v4,v5,DSEv1,DSEv2 (valid=1, reference fields attached), every such body also cut at 4 prefixes and mutated in 3 leading bytes, random byte strings with tame declared lengths, hand-picked boundary bodies; a third of the cases are decoded behind a custom-payload prefix as client.Receive does. Non-trivial = all; distinct = distinct (opcode, version, body, prefix).",
+  "assumptions": ["declared [long string] lengths in malformed bodies are kept below 16 MiB by the generator (memory), the theorem covers all lengths",
+                  "string/id lengths below the protocol limits (2^31, 2^16)"],
+  "trusted": ["Model/Codec.v hand-written from codecs/partial_codecs.go + codecs/reader.go; tie = differential run of CustomRawCodec.DecodeBody / message codec Encode / EncodedLength"],
+ },
 }
